@@ -736,7 +736,20 @@ printf("debug> '%s' is a macro.  param_count=%d\n", token, param_count);
 //  asm_context->tokens.unget_ptr);
 #endif
 
+      // A define whose text starts with its own name (A equ A) would
+      // expand forever.
+      static int expand_depth = 0;
+
+      if (expand_depth >= MAX_NESTED_MACROS)
+      {
+        print_error(asm_context, "Define expands to itself");
+        asm_context->error_count++;
+        return TOKEN_EOF;
+      }
+
+      expand_depth++;
       token_type = tokens_get(asm_context, token, len);
+      expand_depth--;
 #ifdef DEBUG
 //printf("debug> expanding.. '%s'\n", token);
 #endif
